@@ -79,6 +79,7 @@ func VerifC17Retry() {
 	names := []string{"a.x", "b.y", "a.x"}
 	n := 1 + verifChoice("n", 3)
 	verifHTTPMaxFailures(verifParamInt("maxfail", 2))
+	verifHTTPAllowBadBody(verifParam("badbody") == "1") // also: error status whose body cannot be read to the end
 	var want []string
 	for i := 0; i < n; i++ {
 		ts := "15000000" + string(rune('0'+i))
